@@ -646,6 +646,8 @@ class _InternalBaseTracer(_InternalBaseTracerSuper, metaclass=MetaTracerStateMac
         @functools.wraps(f)
         def instrumented_f(*args, **kwargs):
             with self.tracing_enabled(tracing_enabled_file=f_defined_file):
+                # unlike a sandbox, the function has no wrapper frames in its file whose events are to be skipped
+                self._num_sandbox_calls_seen = 2
                 return f(*args, **kwargs)
 
         return instrumented_f
